@@ -199,7 +199,8 @@ def run_check(tier: str, seed: int, workers: Any) -> Dict[str, Any]:
         factory, (), tiny, deep, seed, workers,
         rule=f'the three smallest programs with <= {deep["K"]} requests', assumptions=[], bounds=deep, describe=describe_unit)
     out = runner.merge([part1, part2, part3])
-    part4 = check_restored_pause()
+    from ..explore import guarded_part
+    part4 = guarded_part(check_restored_pause, 240, {'part': 'restored-pause'})
     out['violations'].extend(part4['violations'])
     out['coverage']['evaluations'] += part4['n']
     out['coverage']['transitions'] += part4['n']
